@@ -99,7 +99,7 @@ func runMutant(repo, verif string, m mutant, verbose bool) (bool, string) {
 	cfg := solveConfig{dir: filepath.Join(os.TempDir(), fmt.Sprintf("govc-st-%d-%s", os.Getpid(), sanitize(m.Name))), timeoutS: 10, workers: 4}
 	defer os.RemoveAll(cfg.dir)
 	var lemmas []*Lemma
-	results := solveAll(e.prelude(), frs, lemmas, cfg)
+	results := solveAll(e.prelude(), e.opaqueDefs, frs, lemmas, cfg)
 	base := readBaseline(filepath.Join(verif, "baseline_obligations.txt"))
 	var failed []string
 	for _, r := range results {
